@@ -4,6 +4,14 @@
 // RPC method; the caller's view (which registry variable it is, ErrorIsRetryable) is printed.
 // The KV / lease methods are called with keys / prefixes / lease names of many lengths (0 .. 64 KiB, powers of two and
 // their neighbours, random lengths; ASCII and multi-byte/escaped UTF-8): the server echoes the key in the error's meta.
+//
+// LIVE part: the handlers' local node is a REAL chord.LocalNode (an active single-node ring, a node that was never
+// started, a node that has left) over the real in-memory KV provider. Every request is put to the node directly (the
+// origin's own answer) and, in the same state, through the real handler / twirp / RemoteNode path; the requests are
+// chosen so that the node itself produces its errors: lease ttl 0 / 1 ns / 500 ms / 999 999 999 ns / negative /
+// random sub-second (and valid ones: 1 s, 1 s + 1 ns, 1.5 s, minutes), acquiring a held lease, renewing / releasing
+// with a stale token, on a free lease, after the lease's time is up, appending an existing child, and every method on
+// the not-started / left nodes.
 package main
 
 import (
@@ -19,9 +27,12 @@ import (
 
 	"github.com/go-chi/chi/v5"
 	"github.com/twitchtv/twirp"
+	"github.com/stretchr/testify/mock"
 	"go.uber.org/zap"
 
 	chordImpl "go.miragespace.co/specter/chord"
+	"go.miragespace.co/specter/kv/memory"
+	"go.miragespace.co/specter/rtt"
 	"go.miragespace.co/specter/spec/chord"
 	"go.miragespace.co/specter/spec/mocks"
 	"go.miragespace.co/specter/spec/protocol"
@@ -240,41 +251,46 @@ type rig struct {
 	caller *chordImpl.RemoteNode
 	peerVN chord.VNode
 	ctx    context.Context
+	serve  func(peer *protocol.Node, ln chord.VNode) *chordImpl.RemoteNode
 }
 
 func setup() *rig {
 	ctx := context.Background()
 	logger := zap.NewNop()
-	peer := &protocol.Node{Id: 1234, Address: "127.0.0.1:1234"}
-	st := &stub{id: peer}
-	srvImpl := &chordImpl.Server{
-		LocalNode: st,
-		Factory:   func(n *protocol.Node) (chord.VNode, error) { return &stub{id: n}, nil },
-	}
-	nsTwirp := protocol.NewVNodeServiceServer(srvImpl)
-	ksTwirp := protocol.NewKVServiceServer(srvImpl)
-	h := chi.NewRouter()
-	h.Mount(nsTwirp.PathPrefix(), rpc.ExtractContext(nsTwirp))
-	h.Mount(ksTwirp.PathPrefix(), rpc.ExtractContext(ksTwirp))
-
 	tp := mocks.SelfTransport()
-	srv := &http.Server{
-		BaseContext: func(net.Listener) context.Context { return ctx },
-		ReadTimeout: 5 * time.Second,
-		Handler:     h,
-	}
-	acc := acceptor.NewH2Acceptor(nil)
-	go srv.Serve(acc)
 	router := transport.NewStreamRouter(logger, tp, nil)
 	go router.Accept(ctx)
-	router.HandleChord(protocol.Stream_RPC, peer, func(d *transport.StreamDelegate) { acc.Handle(d) })
-
 	client := rpc.DynamicChordClient(ctx, tp)
-	caller, err := chordImpl.NewRemoteNode(ctx, logger, client, peer)
-	if err != nil {
-		panic(err)
+
+	// serve puts `ln` behind the REAL chord.Server handlers and real twirp servers, reachable as `peer` over the test
+	// transport, and returns the real RemoteNode a remote caller would hold
+	serve := func(peer *protocol.Node, ln chord.VNode) *chordImpl.RemoteNode {
+		srvImpl := &chordImpl.Server{
+			LocalNode: ln,
+			Factory:   func(n *protocol.Node) (chord.VNode, error) { return &stub{id: n}, nil },
+		}
+		nsTwirp := protocol.NewVNodeServiceServer(srvImpl)
+		ksTwirp := protocol.NewKVServiceServer(srvImpl)
+		h := chi.NewRouter()
+		h.Mount(nsTwirp.PathPrefix(), rpc.ExtractContext(nsTwirp))
+		h.Mount(ksTwirp.PathPrefix(), rpc.ExtractContext(ksTwirp))
+		srv := &http.Server{
+			BaseContext: func(net.Listener) context.Context { return ctx },
+			ReadTimeout: 5 * time.Second,
+			Handler:     h,
+		}
+		acc := acceptor.NewH2Acceptor(nil)
+		go srv.Serve(acc)
+		router.HandleChord(protocol.Stream_RPC, peer, func(d *transport.StreamDelegate) { acc.Handle(d) })
+		caller, err := chordImpl.NewRemoteNode(ctx, logger, client, peer)
+		if err != nil {
+			panic(err)
+		}
+		return caller
 	}
-	return &rig{st: st, caller: caller, peerVN: &stub{id: &protocol.Node{Id: 99, Address: "127.0.0.1:99"}}, ctx: ctx}
+	peer := &protocol.Node{Id: 1234, Address: "127.0.0.1:1234"}
+	st := &stub{id: peer}
+	return &rig{st: st, caller: serve(peer, st), peerVN: &stub{id: &protocol.Node{Id: 99, Address: "127.0.0.1:99"}}, ctx: ctx, serve: serve}
 }
 
 func identify(err error) string {
